@@ -509,7 +509,16 @@ def c05j(prog, rep):
     if not rep.check(bool(starts), R, "anchor:contextual-keyword-edges", "parse_structures has no arm for IdentifierOrKeyword tokens any more"):
         return
     # branches on a question about the surroundings
-    qdst = {c.t["dst"]["l"] for c in b.calls() if norm(c.t.get("resolved") or c.target or c.callee or "").split("::")[-1] in CONTEXT_QUERIES
+    def asks_context(t, depth=0):
+        """a context query, or a bool method of the parser (`&self`) that asks one (the guard of an arm extracted into a helper)"""
+        nm = t.split("::")[-1]
+        if nm in CONTEXT_QUERIES:
+            return True
+        hb = prog.body(t)
+        if hb is None or not t.startswith(P) or depth > 1 or hb.locals[0]["ty"] != "bool" or hb.loops() or (hb.arg_count and hb.locals[1]["ty"].startswith("&mut")):
+            return False
+        return any(asks_context(norm(c2.t.get("resolved") or c2.target or c2.callee or ""), depth + 1) for x in [hb] + list(prog.closures_of(hb.npath)) for c2 in x.calls())
+    qdst = {c.t["dst"]["l"] for c in b.calls() if asks_context(norm(c.t.get("resolved") or c.target or c.callee or ""))
             and not (norm(c.t.get("resolved") or c.target or c.callee or "").endswith("::get_token_type") and (c.t.get("callee_args") or ["0"])[-1] == "0")}
     gbranches = set()
     for bb in sorted(b.reachable()):
@@ -580,7 +589,7 @@ def c05m(prog, rep):
     R = "C05.m"
     from table import canon_place
     P = "pasfmt_core::defaults::parser::InternalDelphiLogicalLineParser::"
-    n = 0
+    n = shared = 0
     for fn in ("parse_structures", "parse_statement"):
         b = prog.body(P + fn)
         if not rep.check(b is not None, R, "anchor:" + fn, "%s not found" % fn):
@@ -626,6 +635,14 @@ def c05m(prog, rep):
             ds = discr_switch(bb)
             if not ds or "IdentifierOrKeyword" not in ds[2] or not re.match(r"^get_current_token_type\([^()]*\)@Some\.0$", ds[0]):
                 continue
+            # arms shared by both forms of a keyword (`Keyword(k) | IdentifierOrKeyword(k) if is_contextual(k) => construct(k)`): construct
+            # call sites reached from both and not from the other token kinds
+            both = construct_calls(ds[2]["IdentifierOrKeyword"]) & construct_calls(ds[2].get("Keyword"))
+            for v, tb in ds[2].items():
+                if v not in ("IdentifierOrKeyword", "Keyword"):
+                    both -= construct_calls(tb)
+            both -= construct_calls(ds[3])
+            shared += len({nm for _, nm in both})
             ib, kb = follow(ds[2]["IdentifierOrKeyword"]), follow(ds[2].get("Keyword"))
             ids, kds = discr_switch(ib), discr_switch(kb)
             if ids is None:
@@ -645,7 +662,7 @@ def c05m(prog, rep):
                           "passes over the same tokens (one per conditional-directive branch) do not — the construct's lines exist in the first pass only"
                           % (fn, kind.lower(), missing[:3], kind), where="%s:%d" % (b.file, b.line),
                           instance={"fn": fn, "kind": kind, "construct_calls": sorted({nm for _, nm in cc})[:6], "keyword_arm": "same calls" if not missing else "missing"})
-    rep.floor(R, "contextual keywords whose arm builds a construct", n, 5)
+    rep.floor(R, "contextual keywords whose arm builds a construct (per kind, or in an arm shared by the Keyword and IdentifierOrKeyword forms)", n + shared, 2)
 
 
 # adapters that answer "is there an element with property P" when P is their own predicate
